@@ -45,3 +45,22 @@ Example C04_nonvacuous :
   fst (alloc_locals 0 [1; 8; 2; 4]) = [(-1, 1); (-16, 8); (-18, 2); (-24, 4)] /\
   pairwise_disjoint (fst (alloc_locals 0 [1; 8; 2; 4])).
 Proof. split; [reflexivity|]. apply locals_disjoint. repeat (constructor; [first [exists 0; split; [lia|reflexivity] | exists 1; split; [lia|reflexivity] | exists 2; split; [lia|reflexivity] | exists 3; split; [lia|reflexivity]]|]). constructor. Qed.
+
+(* Dict structures (key and value on the stack) between locals, in ANY declaration order: the model of Dict.__set_name__ *)
+Theorem C04_dict_layout : forall stack ks vs, 0 <= ks -> 0 <= vs ->
+  let '((k, _), (v, _), st) := alloc_dict stack ks vs in
+  st = v /\ v + vs <= k /\ k + ks <= stack /\ k mod 8 = 0 /\ v mod 8 = 0.
+Proof. exact dict_layout. Qed.
+Print Assumptions C04_dict_layout.
+Theorem C04_items_disjoint : forall l stack, Forall item_ok l -> pairwise_disjoint (fst (alloc_items stack l)).
+Proof. exact items_disjoint. Qed.
+Print Assumptions C04_items_disjoint.
+(* temporaries (hash-map keys, intermediate values, saved registers) taken after all declarations lie below every local, key and value *)
+Theorem C04_scratch_below_items : forall l size, Forall item_ok l -> pow2_size size ->
+  let '(vars, st) := alloc_items 0 l in
+  Forall (fun r => disjoint (scratch st size, size) r) vars.
+Proof. exact scratch_below_items. Qed.
+Print Assumptions C04_scratch_below_items.
+Example C04_items_nonvacuous :
+  fst (alloc_items 0 [ILocal 4; IDict 8 4; ILocal 1; IDict 5 13]) = [(-4, 4); (-16, 8); (-24, 4); (-25, 1); (-32, 5); (-48, 13)].
+Proof. reflexivity. Qed.
